@@ -66,7 +66,6 @@ func main() {
 	b := boundsOf(tier)
 	rep.Bounds["histories_one_series"] = b.One
 	rep.Bounds["histories_two_series"] = b.Two
-	rep.Bounds["slots"] = b.slots
 	rep.Bounds["series"] = []string{"a", "b"}
 	rep.Bounds["gap_ops"] = gapOps
 	rep.Bounds["field_types"] = fieldTypes
